@@ -166,6 +166,11 @@ def build_gen(cls, p):
     hw = py4hw.HWSystem()
     a, b, q = hw.wire('a', p['wa']), hw.wire('b', p['wb']), hw.wire('q', p['wq'])
     dut = cls(hw, 'dut', a, b, q, p['k'])
+    if p.get('family') == 'sharedparam':
+        # a second instance of the same (module-name sharing) class with another parameter value
+        q2 = hw.wire('q2', p['wq'])
+        cls(hw, 'dut2', a, b, q2, p['k'] + 1)
+        return hw, [('a', a), ('b', b)], [('q', q), ('q2', q2)], dut
     return hw, [('a', a), ('b', b)], [('q', q)], dut
 
 
@@ -265,7 +270,7 @@ def explore_program(label, builder, res, cap, interp=None, alphabets=None, desc=
         if interp is not None:
             try:
                 s0 = getattr(c.dut, 's', None)
-                c.pred = interp.run(x[0], x[1], s0)
+                c.pred = interp.run(x[0], x[1], s0, {'f': int(c.dut.f)} if hasattr(c.dut, 'f') else None)
             except progen.OutOfDomain:
                 c.skip = True
                 res['pruned'] += 1
@@ -359,7 +364,7 @@ def explore_program(label, builder, res, cap, interp=None, alphabets=None, desc=
             sim2 = hw2.getSimulator()
             for x in warm:
                 if interp is not None:
-                    interp.run(x[0], x[1], getattr(dut2, 's', None))
+                    interp.run(x[0], x[1], getattr(dut2, 's', None), {'f': int(dut2.f)} if hasattr(dut2, 'f') else None)
                 for (n, w), v in zip(ins2, x):
                     w.put(v)
                 sim2.clk(1)
